@@ -508,4 +508,51 @@ theorem no_panic {s : State} (hcb : s.cbNil = false) (op : Op) : ∀ calls, (ste
   all_goals (try split)
   all_goals (first | (simp; done) | simp_all)
 
+/-- Witness for the shape fact `ensureMinCallbackNilGuarded = false`: with a nil callback, a stream
+    whose window auto-tuning grows makes `EnsureMinimumWindowSize` call the nil function (the Go code
+    panics there; not reachable from connection.go, see `conn_callback_never_nil`). -/
+theorem nil_callback_panic_witness :
+    (step (run { State.init 100 4000 true with rtt := 100000000 }
+            [.newStream 100 400 0, .recv 0 100 false 1000, .read 0 80]) (.supd 0 1001 true)).2 = .panic [] := by
+  decide
+
+/-! ## examples: the hypotheses are satisfiable by non-trivial histories -/
+
+/-- two streams; MAX_DATA / MAX_STREAM_DATA in order, stale and duplicated; sends up to the window;
+    data, a FIN, a read, an abandon; blocked queries -/
+def exInit : State := { State.init 1200 6000 false with rtt := 100000000 }
+def exOps : List Op :=
+  [.newStream 500 2000 500, .newStream 1000 1000 0, .cmax 800, .smax 0 700, .cmax 600, .sent 0 300, .smax 0 400,
+   .recv 0 400 false 10, .recv 1 200 true 11, .read 0 100, .abandon 1, .sent 0 400, .sblocked 0, .cblocked,
+   .read 0 300, .supd 0 12 true, .cupd 13 true]
+
+theorem exValid : ValidFrom exInit exOps := by
+  simp [ValidFrom, Pre, exInit, exOps, step, stepT, State.init, Conn.new, Stream.new,
+    Stream.updateHighestReceived, Conn.incrementHighestReceived, Base.startNewAutoTuningEpoch,
+    Base.checkFlowControlViolation, cmp, Uquic.Gen.Flowcontrol.violationCmpOp,
+    Stream.addBytesSent, Base.addBytesSent, Base.updateSendWindow, Stream.sendWindowSize, Base.sendWindowSize,
+    Stream.addBytesRead, Base.addBytesRead, Conn.addBytesRead, Stream.abandon, Stream.isNewlyBlocked,
+    Base.isNewlyBlocked]
+  omega
+
+theorem exReach : Reach (run exInit exOps) :=
+  (Reach.init 1200 6000 false 100000000 (by omega)).run exOps exValid
+
+/-- the example state is not trivial: bytes were sent up to the stream limit, credit was returned,
+    the stream reported blocked exactly at its limit 700, the auto-tuner doubled the stream window
+    (update 400 + 1000) and raised the connection window to 1.5 × 1000 after asking the callback for 300 -/
+example : (run exInit exOps).conn.bytesSent = 700 ∧ (run exInit exOps).conn.sendWindow = 800 ∧
+    (run exInit exOps).conn.bytesRead = 600 ∧ (run exInit exOps).conn.highestReceived = 600 ∧
+    (run exInit exOps).streams.length = 2 ∧
+    streamBlockedReports 0 exInit exOps = [700] ∧ connBlockedReports exInit exOps = [] ∧
+    (trace exInit exOps).drop 15 = [.upd 1400 [300], .upd 2100 []] ∧
+    (run exInit exOps).conn.receiveWindowSize = 1500 := by decide
+
+example := sender_within_credit exReach
+example := credit_conserved exReach
+example := send_window_is_largest_seen (Reach.init 1200 6000 false 100000000 (by omega)) exOps exValid (by decide)
+example := blocked_once (Reach.init 1200 6000 false 100000000 (by omega)) exOps exValid (by decide)
+example := blocked_once_stream 0 (Reach.init 1200 6000 false 100000000 (by omega)) exOps exValid (by decide)
+example := window_size_bounded_run (Reach.init 1200 6000 false 100000000 (by omega)) exOps exValid
+
 end Uquic.Props.C04
